@@ -91,8 +91,13 @@ class VtsWorld(World):
             return h.pq_call(it, o, method, args)
         if o.kind == "callback":
             self.log.append(("action", o.name, h.clock_term(it), dict(self.depth)))
-            # a user action may schedule and cancel: the queue view is arbitrary afterwards
+            # a user action may schedule and cancel: the queue view is arbitrary afterwards; it may also sleep(): the clock may have
+            # moved forward (never backwards: sleep's own contract)
             h.havoc_queue(it, "after-action")
+            if getattr(h, "actions_may_sleep", False) and isinstance(h.obj, Obj):
+                c0 = h.clock_term(it)
+                h.obj.fields["_clock"] = it.ctx.fresh("clock_after_action", "int")
+                it.ctx.assume(h.clock_term(it) >= c0)
             return None
         if o.kind == "logger":
             return None
@@ -200,6 +205,8 @@ class VtsHarness:
         w = self.w = VtsWorld(self)
         it = Interp(self.loader, ctx, w)
         it.call_hook = self.hook
+        self.actions_may_sleep = True
+        self.clock_at_loop_exit = None
         self.is_datetime = ctx.choose(2, "datetime_clock") == 0
         base_isinstance = it.externals["builtins.isinstance"]
 
@@ -249,7 +256,7 @@ class VtsHarness:
         target = None
         if name == "advance_to":
             target = it.to_int(it.lookup(env, "dt"))
-            ctx.assume(self.clock_term(it) <= target)  # loop invariant: the clock never passes the target
+            # (no invariant "clock <= target": an action may have slept past the target - the LOOP never moves the clock past it)
         clock0 = self.clock_term(it)
         view0 = self.q.attrs["view"]
         count0 = it.to_int(self.q.attrs["count"])
@@ -274,6 +281,7 @@ class VtsHarness:
 
         if not it.truth(it.eval(st.test, env), "run-loop condition"):
             exit_is_legitimate("by-condition")
+            self.clock_at_loop_exit = self.clock_term(it)
             it.exec_block(st.orelse, env)
             return
         try:
@@ -293,6 +301,7 @@ class VtsHarness:
                 if item_peeked:
                     self.rec(ctx, uid + "/loop/exit/only-when-head-is-later-than-target",
                              it.to_int(item_peeked[0].fields["duetime"]) > target)
+            self.clock_at_loop_exit = self.clock_term(it)
             return
         except _Continue:
             pass
@@ -318,12 +327,13 @@ class VtsHarness:
             self.rec(ctx, uid + "/iteration/clock-never-backwards", clock_at >= clock0)
             if name == "advance_to":
                 self.rec(ctx, uid + "/iteration/only-items-due-by-target", due <= target)
-                self.rec(ctx, uid + "/iteration/clock-within-target", clock_at <= target)
+                self.rec(ctx, uid + "/iteration/the-loop-moves-the-clock-only-to-a-due-time-within-the-target", z3.Or(clock_at == clock0, z3.And(clock_at == due, due <= target)))
         else:
             self.rec(ctx, uid + "/iteration/skips-only-cancelled-items", cancelled)
             self.rec(ctx, uid + "/iteration/clock-never-backwards", self.clock_term(it) >= clock0)
             if name == "advance_to":
-                self.rec(ctx, uid + "/iteration/clock-within-target", self.clock_term(it) <= target)
+                self.rec(ctx, uid + "/iteration/the-loop-moves-the-clock-only-to-a-due-time-within-the-target",
+                         z3.Or(self.clock_term(it) == clock0, z3.And(self.clock_term(it) == due, due <= target)))
         self.rec(ctx, uid + "/iteration/lock-free-at-loop-head", all(d == 0 for d in w.depth.values()))
         raise PathEnd()
 
@@ -372,9 +382,18 @@ class VtsHarness:
             else:
                 self.rec(ctx, uid + "/never-accepts-a-past-target", clock0 <= t)
                 e0 = z3.BoolVal(enabled0) if isinstance(enabled0, bool) else enabled0
-                # unless it returned at once (already at target / already running) the clock ends at the target
-                self.rec(ctx, uid + "/clock-ends-at-target-or-untouched", z3.Or(clock1 == t, z3.And(clock1 == clock0, z3.Or(e0, clock0 == t))))
-                self.rec(ctx, uid + "/clock-never-backwards", clock1 >= clock0)
+                ce = getattr(self, "clock_at_loop_exit", None)
+                if ce is not None:
+                    # it ran its loop: the clock ends at the target - or where an action left it, if that is later (never backwards)
+                    self.rec(ctx, uid + "/clock-ends-at-target-or-where-an-action-left-it-if-later", clock1 == z3.If(ce > t, ce, t),
+                             detail="after the run loop the clock is the target, unless an action moved it past the target (sleep): then it stays there")
+                    self.rec(ctx, uid + "/clock-never-backwards", z3.And(clock1 >= clock0, clock1 >= ce))
+                else:
+                    # returned before the run loop: only because a run is already in progress (the property: advance_to runs exactly the actions
+                    # due at or before the target - also when the target IS the current clock)
+                    self.rec(ctx, uid + "/returns-without-running-only-when-a-run-is-already-in-progress", e0,
+                             detail="advance_to(t) returned at once with the scheduler idle: actions due at or before t (t == clock) stay un-run")
+                    self.rec(ctx, uid + "/clock-never-backwards", clock1 >= clock0)
         if mname == "sleep":
             t = it.to_int(args[0])
             self.rec(ctx, uid + "/runs-nothing", not acts)
@@ -503,10 +522,8 @@ def run_unit(desc):
     h = VtsHarness().run()
     prop = desc["prop"]
     res = [r.as_dict() for r in h.results]
-    if prop == "C29":
-        keep = ("no-self-deadlock", "returns-normally", "ends-disabled", "removes-exactly-the-head", "lock-free", "raises-only",
-                "never-accepts", "loop/exit", "clock-ends-at-target")
-        res = [r for r in res if any(k in r["id"] for k in keep)]
+    # (C29 - "return after running every due action" - rests on the same clauses as C28: an advance_to that moves the clock by itself, or
+    # returns early, leaves due actions un-run; all obligations are reported under both properties)
     rep = {
         "unit": f"{VFILE}::VirtualTimeScheduler",
         "kind": "function contracts with loop invariants (virtual-time run loops)",
